@@ -1,5 +1,6 @@
 # C06: output style changes only formatting, never meaning or evaluation.
 import json
+import re
 import os
 
 from . import common as C
@@ -20,6 +21,21 @@ def side(x):
             "toks": csstok.canon_stream(x["css"]) if oc == "css" else []}
 
 
+def log_only_style_difference(se, sc, e, c):
+    """F11 through the logger: identical token streams and outcomes, and messages that differ only by the compressed spelling of a
+    comma separator or a leading zero (what value-to-text conversion with the output style produces)."""
+    if se["toks"] != sc["toks"] or e.get("outcome") != c.get("outcome"):
+        return False
+    le, lc = e.get("log") or [], c.get("log") or []
+    if len(le) != len(lc) or le == lc:
+        return False
+
+    def squeeze(m):
+        return re.sub(r"(?<![0-9])0\.", ".", re.sub(r",\s+", ",", m))
+    return all(a.get("kind") == b.get("kind") and a.get("line") == b.get("line") and squeeze(a.get("msg", "")) == squeeze(b.get("msg", ""))
+               for a, b in zip(le, lc))
+
+
 def run(ctx):
     ctx.rule = ("every input is compiled expanded and compressed; inputs: value x text-conversion-context programs (MC_Style), "
                 "string/escape sheets (MC_Sheet), MC_Eval programs, MC_Nesting trees and the golden corpus; one event per "
@@ -33,6 +49,10 @@ def run(ctx):
     inputs += [{"src": "\n".join(c["scss"]) + "\n", "kind": "style", "vclass": c["vclass"], "ctx": c["ctx"]} for c in r.cases]
     r = C.tlc("MC_Sheet", cfg_text=p05.SHEET_CFG % (3 if thorough else 2, "strings"), workers=6, timeout=1200)
     C.tlc_must_pass(r, "MC_Sheet")
+    ctx.add_tlc(r)
+    inputs += [{"src": "\n".join(c["scss"]) + "\n", "kind": "sheet"} for c in r.cases]
+    r = C.tlc("MC_Sheet", cfg_text=p05.SHEET_CFG % (2, "forms"), workers=6, timeout=1200)
+    C.tlc_must_pass(r, "MC_Sheet/forms")
     ctx.add_tlc(r)
     inputs += [{"src": "\n".join(c["scss"]) + "\n", "kind": "sheet"} for c in r.cases]
     ev = sources.eval_programs(ctx, [("ops", 2, 1), ("scope", 4, 2)] if not thorough else [("ops", 2, 1), ("scope", 5, 2), ("control", 4, 2), ("diag", 4, 2)])
@@ -71,6 +91,8 @@ def run(ctx):
             dev = ""
             if inp["kind"] == "style" and inp["vclass"] in ("frac", "color", "commalist") and inp["ctx"] in TEXT_CONTEXTS:
                 dev = "D_interp_uses_output_style"
+            elif inp["kind"] == "eval" and log_only_style_difference(side(e), side(c), e, c):
+                dev = "D_interp_uses_output_style"       # the same defect seen through @debug/@warn: the message text of a list/number
             ctx.violation("expanded and compressed output differ in more than formatting",
                           {"src": inp["src"], "kind": inp["kind"], "vclass": inp.get("vclass", ""), "context": inp.get("ctx", ""),
                            "corpus_entry": inp.get("name", ""), "deviation": dev,
